@@ -1,6 +1,6 @@
 CONSTANTS
   MaxCmds = 3
-  MaxPending = 2
+  MaxPending = 3
   MaxNum = 2
   MaxItems = 1
 INIT Init
